@@ -106,8 +106,10 @@ int run(const std::unique_ptr<VerilatedContext> &contextp,
     contextp->timeInc(1);
     // Toggle the clock.
     top->i_clk = !top->i_clk;
-    // Assert reset initially.
-    if (top->i_clk) {
+    // Assert reset initially. Reset is released on a falling clock phase, so
+    // that the first instruction is presented (and a system call it makes can
+    // be handled) before the rising edge that retires it.
+    if (!top->i_clk) {
       if (contextp->time() < RESET_END) {
         top->i_rst = 1; // Assert reset
       } else {
@@ -128,8 +130,9 @@ int run(const std::unique_ptr<VerilatedContext> &contextp,
                      % static_cast<unsigned>(top->hex->u_processor->instr)
                      % instr;
     }
-    // Handle syscalls
-    if (top->i_clk && !top->i_rst && top->o_syscall_valid) {
+    // Handle syscalls: the instruction presented during the low clock phase
+    // retires on the next rising edge.
+    if (!top->i_clk && !top->i_rst && top->o_syscall_valid) {
       auto syscall = static_cast<hex::Syscall>(top->o_syscall);
       handleSyscall(syscall, top, exitCode, trace);
       if (syscall == hex::Syscall::EXIT) {
